@@ -17,6 +17,9 @@ struct umem_mgr *umem_count_mgr_alloc(void);
 struct umem_count_stats *umem_count_stats(struct umem_mgr *mgr);
 /* returns true and fills base/size if p lies inside a live allocation of this manager */
 bool umem_count_lookup(struct umem_mgr *mgr, const void *p, uint8_t **base_p, size_t *size_p);
+/* fault injection: the n-th umem_alloc / umem_realloc from now on fails, once (0 disarms); umem_count_failures = how many were injected */
+void umem_count_fail_nth(struct umem_mgr *mgr, unsigned n);
+unsigned long umem_count_failures(struct umem_mgr *mgr);
 /* number of references currently held on the manager */
 bool umem_count_single(struct umem_mgr *mgr);
 #endif
